@@ -123,6 +123,14 @@ impl Stack {
     }
 }
 
+#[cfg(feature = "verif_hooks")]
+impl Stack {
+    /// Operand stack height, for the verification probes.
+    pub(crate) fn verif_len(&self) -> usize {
+        self.values.len()
+    }
+}
+
 impl From<Vec<Value>> for Stack {
     fn from(values: Vec<Value>) -> Stack {
         Stack { values }
@@ -164,6 +172,17 @@ impl fmt::Debug for ContextDebug<'_, '_> {
                 (key, value)
             }))
             .finish()
+    }
+}
+
+#[cfg(feature = "verif_hooks")]
+impl Context<'_> {
+    /// For every frame whether it is a loop frame, for the verification probes.
+    pub(crate) fn verif_frame_is_loop(&self) -> Vec<bool> {
+        self.stack
+            .iter()
+            .map(|frame| frame.current_loop.is_some())
+            .collect()
     }
 }
 
